@@ -168,6 +168,10 @@ int Canon::canon(int t) {
   for (auto &a : x.a) if (x.op != TT.OP_SYM && x.op != TT.OP_PTR) a = canon(a);
   int r = -1;
   const std::string op = OPS.name(x.op);
+  if (!x.a.empty() && x.op != TT.OP_SYM && x.op != TT.OP_PTR && x.bytes <= 8 && x.op != TT.OP_CONCAT) { // integer constant folding
+    bool allc = true; for (int a : x.a) if (TT.t[a].op != TT.OP_C) allc = false;
+    if (allc) { int tmp = TT.mk(x.op, x.a, x.k, x.bytes); std::unordered_map<int, uint64_t> em; uint64_t v; if (evalBits(tmp, 0, em, v)) { int by = x.bytes; int64_t sv = by < 8 ? (int64_t)(v << (64 - 8 * by)) >> (64 - 8 * by) : (int64_t)v; memo[t] = TT.cint(sv, by); return memo[t]; } }
+  }
   auto mk = [&](int o, std::vector<int> a, int64_t k, int by) { if (commutative(o) && a.size() == 2 && a[1] < a[0]) std::swap(a[0], a[1]); if ((o == TT.OP_FMA) && a[1] < a[0]) std::swap(a[0], a[1]); return TT.mk(o, a, k, by); };
   if (x.op == TT.OP_FMULADD) r = mk(TT.OP_FADD, {mk(TT.OP_FMUL, {x.a[0], x.a[1]}, 0, x.bytes), x.a[2]}, 0, x.bytes);
   else if (x.op == TT.OP_XOR && x.a.size() == 2 && (x.bytes == 4 || x.bytes == 8) && (isSignMask(TT.t[x.a[0]], x.bytes) || isSignMask(TT.t[x.a[1]], x.bytes))) { int other = isSignMask(TT.t[x.a[0]], x.bytes) ? x.a[1] : x.a[0]; r = canon(TT.mk(TT.OP_FNEG, {other}, 0, x.bytes)); }
@@ -529,6 +533,11 @@ static void mmFlatten(Canon &C, int t, int kind, std::set<int> &out, int &seenKi
   }
   if (k == 2 || k == -2) { int kk = k / 2; if (kind != 0 && kk != kind) { out.insert(C.canon(t)); return; } if (seenKind == 0) seenKind = kk; for (int a : x.a) mmFlatten(C, a, kk, out, seenKind, ok); return; }
   if (k != 0 && (kind == 0 || kind == k)) { if (seenKind == 0) seenKind = k; mmFlatten(C, l, k, out, seenKind, ok); mmFlatten(C, r, k, out, seenKind, ok); return; }
+  { // the identity of the fold (lowest()/max() of the type) is not a member: max(x, lowest) == x for every finite x
+    const Term &y = TT.t[C.canon(t)];
+    if (kind != 0 && y.op == TT.OP_CF) { double d = TT.cfval(C.canon(t)); double lim = y.bytes == 4 ? 3.4028234663852886e38 : 1.7976931348623157e308; if ((kind > 0 && (d == -lim || d == -INFINITY)) || (kind < 0 && (d == lim || d == INFINITY))) return; }
+    if (kind != 0 && y.op == TT.OP_C) { int bits = y.bytes * 8; int64_t lo = bits >= 64 ? INT64_MIN : -((int64_t)1 << (bits - 1)), hi = bits >= 64 ? INT64_MAX : (((int64_t)1 << (bits - 1)) - 1); if ((kind > 0 && y.k == lo) || (kind < 0 && y.k == hi)) return; }
+  }
   out.insert(C.canon(t));
 }
 
@@ -569,6 +578,10 @@ static int resolveSel(int t, const std::map<int, bool> &val, std::unordered_map<
       else r = (c & 1) ? TT.mk(TT.OP_NOT, {other}, 0, 1) : other;
     }
     else r = TT.mk(x.op, x.a, x.k, x.bytes);
+    { // all operands constant: fold by evaluation
+      bool allc = !TT.t[r].a.empty() && TT.t[r].op != TT.OP_SYM && TT.t[r].op != TT.OP_PTR; for (int a : TT.t[r].a) if (TT.t[a].op != TT.OP_C) allc = false;
+      if (allc && TT.t[r].bytes <= 8) { std::unordered_map<int, uint64_t> em; uint64_t v; if (evalBits(r, 0, em, v)) { int by = TT.t[r].bytes; int64_t sv = by < 8 ? (int64_t)(v << (64 - 8 * by)) >> (64 - 8 * by) : (int64_t)v; r = TT.cint(sv, by); } }
+    }
     if (CC && r != t && isCmpAtom(TT.t[r])) { // a rebuilt comparison may coincide with an atom that already has a value
       int cr = CC->canon(r); bool neg = false; if (TT.t[cr].op == TT.OP_NOT) { neg = true; cr = TT.t[cr].a[0]; }
       auto g = val.find(cr); if (g != val.end()) r = TT.cint((g->second != neg) ? 1 : 0, 1);
@@ -590,6 +603,10 @@ CmpResult Comparer::compare(int a, int b, const std::string &mode, bool fp, int 
     std::set<int> sa, sb; int ka = 0, kb = 0; bool ok = true;
     mmFlatten(C, a, 0, sa, ka, ok); mmFlatten(C, b, 0, sb, kb, ok);
     if (sa == sb && (ka == kb || sa.size() == 1)) { res.how = "minmax-set"; nMinmax++; return res; }
+    { // members are arithmetic expressions: compare them up to polynomial identity
+      std::set<std::string> pa, pb; for (int t : sa) pa.insert(polyStr(N.norm(t, fp), 1u << 30)); for (int t : sb) pb.insert(polyStr(N.norm(t, fp), 1u << 30));
+      if (!N.capped && !N.overflow && pa == pb && (ka == kb || pa.size() == 1)) { res.how = "minmax-set (members up to polynomial identity)"; nMinmax++; return res; }
+    }
     std::ostringstream ea, eb; ea << (ka > 0 ? "max{" : ka < 0 ? "min{" : "{"); for (int t : sa) ea << TT.str(t, 5) << ";"; ea << "}"; eb << (kb > 0 ? "max{" : kb < 0 ? "min{" : "{"); for (int t : sb) eb << TT.str(t, 5) << ";"; eb << "}";
     res.got = ea.str(); res.expected = eb.str();
   }
@@ -604,7 +621,7 @@ CmpResult Comparer::compare(int a, int b, const std::string &mode, bool fp, int 
   // folded away and the residual terms are compared in the requested mode (atoms are treated as independent, which
   // can only make the test stricter)
   {
-    long budget = 4096; int natoms = 0;
+    long budget = 300000; int natoms = 0;
     std::map<int, bool> val;
     std::function<bool(int, int, int)> splitEq = [&](int ta, int tb, int depth) -> bool {
       if (--budget < 0) return false;
@@ -617,9 +634,10 @@ CmpResult Comparer::compare(int a, int b, const std::string &mode, bool fp, int 
       deep(xa); deep(xb);
       int pick = -1;
       for (int c : conds) { std::set<int> inner, sn; std::function<void(int)> d2 = [&](int t) { if (!sn.insert(t).second) return; const Term &x = TT.t[t]; if (x.op == TT.OP_SYM || x.op == TT.OP_PTR) return; if (t != c && isCmpAtom(x)) inner.insert(t); for (int a : x.a) d2(a); }; d2(c); if (inner.empty()) { pick = c; break; } }
-      if (pick < 0 || depth > 14) {
+      if (pick < 0 || depth > 48) {
         if (mode == "ALG" || (mode == "EXACT" && !fp)) { Normaliser N2; N2.cap = N.cap; N2.C = &C2; Poly pa = N2.norm(xa, fp), pb = N2.norm(xb, fp); if (!N2.capped && !N2.overflow && pa == pb) return true; }
         if (mode == "MINMAX") { std::set<int> sa, sb; int ka = 0, kb = 0; bool ok = true; mmFlatten(C2, xa, 0, sa, ka, ok); mmFlatten(C2, xb, 0, sb, kb, ok); if (sa == sb && (ka == kb || sa.size() == 1)) return true; }
+        if (getenv("IRFLOW_DEBUG")) { fprintf(stderr, "split leaf mismatch depth %d: %s  VS  %s\n", depth, TT.str(xa).c_str(), TT.str(xb).c_str()); for (auto &kv : val) fprintf(stderr, "   %s = %d\n", TT.str(kv.first).c_str(), (int)kv.second); }
         return false;
       }
       natoms = std::max(natoms, depth + 1);
